@@ -62,6 +62,9 @@ VOC = [
     ("mypkg.sub", "Thing", [], True),
     ("os.path", "join", [(S, "a"), (S, "b")], False),
 ]
+# hook operations performed BEFORE the arming (C02_armed_equiv quantifies over every ML-free history)
+HISTORIES = [[], [], ["enter", "leave"], ["arm"], ["arm", "rm"], ["enter"], ["arm", "enter", "leave"],
+             ["enter", "enter", "leave"], ["rm"]]
 CALLS = ["none", "REDUCE", "OBJ", "NEWOBJ", "NEWOBJ_EX", "INST"]
 DISPOSALS = ["result", "pop", "memo", "inlist", "build", "dup"]
 
@@ -219,7 +222,16 @@ def first_pickle(data):
         return None
 
 
+_MI_CACHE = {}
+
+
 def model_inputs(prefix):
+    if prefix not in _MI_CACHE:
+        _MI_CACHE[prefix] = _model_inputs(prefix)
+    return _MI_CACHE[prefix]
+
+
+def _model_inputs(prefix):
     """(decode, protos, stds, reprs) of the analysed pickle in the wire format of DispatchLoader.v"""
     from fickling.fickle import is_std_module
     if prefix is None:
@@ -267,7 +279,10 @@ def make_cases(rng, inputs, tier):
         tail = rng.choice([b"", b"", EVIL, b"garbage", pickle.dumps([1, 2])])
         content = pre + data + tail
         prefix = first_pickle(data + tail)
-        cases.append({"id": len(cases), "label": label, "arming": arming, "thr": thr, "kind": kind,
+        hist = []
+        if arming in ("hook", "ctx", "ctx_default"):
+            hist = rng.choice(HISTORIES)
+        cases.append({"id": len(cases), "label": label, "arming": arming, "thr": thr, "kind": kind, "hist": hist,
                       "content": content.hex(), "off": len(pre),
                       "evil": EVIL.hex() if kind.startswith("swap") else None,
                       "prefix": prefix.hex() if prefix is not None else None})
@@ -335,7 +350,7 @@ def model_line(case):
     arming = {"direct": "direct", "direct_pos": "direct", "hook": "hook", "ctx": "ctx", "ctx_default": "ctx"}[case["arming"]]
     later = bytes.fromhex(case["evil"]) if case["evil"] is not None else content
     return sx(["c02_load", arming, case["thr"], MODEL_KIND[case["kind"]], case["off"], content, later,
-               dec, protos, stds, reprs])
+               dec, protos, stds, reprs, list(case.get("hist") or [])])
 
 
 def parse_events(text):
@@ -481,14 +496,16 @@ def oracle(case, real):
 
 
 def summarise(case, real):
-    return {"label": case["label"], "arming": case["arming"], "thr": DOC[case["thr"]], "kind": case["kind"],
+    return {"label": case["label"], "arming": case["arming"], "earlier_hook_ops": case.get("hist"),
+            "thr": DOC[case["thr"]], "kind": case["kind"],
             "off": case["off"], "outcome": real["r"], "sev": real.get("sev"), "exc": real.get("exc"),
             "find_class": real.get("events"), "sink": real.get("sink"),
             "verdict": (real.get("ref") or {}).get("verdict")}
 
 
 def public_case(case, why):
-    return {"oracle": why, **{k: case[k] for k in ("label", "arming", "thr", "kind", "content", "off", "evil", "prefix")},
+    return {"oracle": why, **{k: case.get(k) for k in ("label", "arming", "hist", "thr", "kind", "content", "off",
+                                                        "evil", "prefix")},
             "threshold": DOC[case["thr"]]}
 
 
@@ -573,6 +590,24 @@ def main(tier, seed):
                     not c["label"].startswith("ladder"):
                 picked.add(key)
                 chk.sample(summarise(c, r))
+
+        # ---- observation (NOT part of C02's quantifier, DESIGN section 4): content that changes DURING the parse ----
+        try:
+            a = asm.assemble([("GLOBAL", ("collections", "OrderedDict")), "STOP"])
+            b = asm.assemble([("GLOBAL", ("collections", "defaultdict")), "STOP"])
+            oc = {"id": 0, "label": "observation:flaky", "arming": "direct", "thr": 0, "kind": "flaky", "hist": [],
+                  "content": a.hex(), "off": 0, "evil": b.hex(), "prefix": a.hex()}
+            orr = run_child([oc], scratch)[0]
+            chk.extra["observations"] = [{
+                "what": "a stream that returns different bytes for a region fickling re-reads WITHIN Pickled.load "
+                        "(the back-fill of variable-width opcodes) makes the analysed argument and the executed "
+                        "bytes differ; C02 quantifies over changes after the parse only, so this is recorded, not "
+                        "alarmed on",
+                "analysed": "collections.OrderedDict", "served_on_re_read": "collections.defaultdict", "verdict_of_analysed": orr.get("ref", {}).get("verdict"),
+                "outcome": orr["r"], "find_class_during_load": orr.get("events"), "sink_calls": orr.get("sink"),
+                "reproduced": orr["r"] == "RET" and orr.get("events") == [["collections", "defaultdict"]]}]
+        except Exception as e:  # an observation must never fail the check
+            chk.extra["observations"] = [{"what": "flaky-stream observation could not be run", "error": repr(e)}]
 
         def search():
             for m in bad:
